@@ -156,7 +156,11 @@ class C19(Prop):
                 continue
             for d in (0, 1):
                 sd.append((name + "+other-instances", d, xs, f"sdftm {d} 2 1000 2000 5000 3000 " + " ".join(map(str, xs[:1500]))))
-        out = ctx.run_impl(exe, [s[3] for s in sd], "sdft")
+        # the multi-instance lines run in a process of their own: no detector with the reported frequencies may have existed before
+        first = [x for x in sd if x[3].startswith("sdftm")]
+        rest = [x for x in sd if not x[3].startswith("sdftm")]
+        sd = first + rest
+        out = ctx.run_impl(exe, [s[3] for s in first], "sdftm") + ctx.run_impl(exe, [s[3] for s in rest], "sdft")
         for (name, d, xs, ln), o in zip(sd, out):
             v = o.split()
             xs = xs[:1500]
